@@ -101,7 +101,7 @@ func checkC01(c *core.Ctx) {
 		if r.Intn(3) == 0 {
 			f.Key = model.RandKey(r)
 		}
-		if judgePitches(c, "random", i, p, f, randWriteOpts(r)) && i%400 == 0 {
+		if judgePitches(c, "random", i, p, f, randWriteOpts(r)) && c.WantSample() {
 			c.Sample(pieceDesc(p, f))
 		}
 	})
